@@ -2,8 +2,10 @@ package main
 
 import (
 	"fmt"
+	"github.com/tencent/goom/verifharness/zoo/fnzoo"
 	"reflect"
 	"runtime"
+	"sync/atomic"
 
 	mocker "github.com/tencent/goom"
 	"github.com/tencent/goom/internal/patch"
@@ -48,6 +50,63 @@ func c01(args []string) int {
 		}
 		for _, to := range tos {
 			out.Put(map[string]interface{}{"kind": "jump", "to": fmt.Sprintf("%d", to), "bytes": fmt.Sprintf("%x", patch.VerifJmpToFunctionValue(0x401000, uintptr(to)))})
+		}
+		return 0
+	}
+	if c.extra == "retain" { // the replacement must stay reachable from goom itself: nothing of the program keeps the builder or the callback
+		type tcase struct {
+			name string
+			f    func(int) int
+		}
+		cases := []tcase{{"F1", fnzoo.F1}, {"G1", fnzoo.G1}, {"G2", fnzoo.G2}}
+		for round := 0; round < 6; round++ {
+			for i, tc := range cases {
+				var collected int32
+				stub := round%2 == 1
+				func() { // everything allocated here is garbage when the function returns, except what goom keeps
+					tag := &[6]int{i + 1, round}
+					runtime.SetFinalizer(tag, func(*[6]int) { atomic.StoreInt32(&collected, 1) })
+					if stub {
+						// the stub's result is computed by a captured object too: When -> matcher -> results
+						mocker.Create().Func(tc.f).Apply(func(a int) int { return tag[0]*1000 + a + 77 })
+						mocker.Create().Func(tc.f).Return(tag[0]*1000 + 78)
+						runtime.SetFinalizer(tag, nil) // the stub does not capture tag: nothing to observe through it
+					} else {
+						mocker.Create().Func(tc.f).Apply(func(a int) int { return tag[0]*1000 + a + 77 })
+					}
+				}()
+				out.Put(map[string]interface{}{"kind": "retain-about", "name": tc.name, "round": round, "stub": stub})
+				out.Flush()
+				for r := 0; r < 4; r++ {
+					c01Churn()
+					var sink [][]uintptr
+					for j := 0; j < 30000; j++ {
+						x := make([]uintptr, 2+j%10)
+						for q := range x {
+							x[q] = 0xdeadbeefdeadbeef
+						}
+						sink = append(sink, x)
+					}
+					_ = sink
+					runtime.Gosched()
+				}
+				got, pan := 0, ""
+				func() {
+					defer func() {
+						if e := recover(); e != nil {
+							pan = trunc(fmt.Sprint(e), 80)
+						}
+					}()
+					got = tc.f(5)
+				}()
+				want := (i+1)*1000 + 5 + 77
+				if stub {
+					want = (i+1)*1000 + 78
+				}
+				out.Put(map[string]interface{}{"kind": "retain", "name": tc.name, "round": round, "stub": stub, "collected": atomic.LoadInt32(&collected) == 1,
+					"got": got, "want": want, "panic": pan})
+				patch.UnpatchAll()
+			}
 		}
 		return 0
 	}
